@@ -22,7 +22,7 @@ macro_rules! rcinst {
     };
 }
 // ---- quick tier
-cinst!(c10_range_single_page, [1, 2, 3, 4], 0x8080604000, 0x8080604000, false, false, false, false);
+cinst!(c10_range_single_page, [256, 2, 3, 4], 0xffff800080604000, 0xffff800080604000, false, false, false, false);
 cinst!(c10_range_p1_unaligned_window, [1, 2, 3, 4], 0x8080664000, 0x80806c8000, false, false, false, false);
 cinst!(c10_range_two_p1_tables, [1, 2, 3, 4], 0x808040a000, 0x8080614000, false, false, false, false);
 cinst!(c10_range_two_p3_slots_huge3, [1, 2, 3, 4], 0x8080664000, 0x80c0005000, false, true, false, false);
